@@ -49,24 +49,19 @@ func (cc *chanClient) Node(f *FuncCFG, b *cfg.Block, idx int, n ast.Node, st *FS
 	}
 }
 
-func (cc *chanClient) Edge(f *FuncCFG, b *cfg.Block, cond ast.Expr, taken bool, st *FState) {
-	// condition is exactly the flag load (or its negation): the unset edge establishes the fact
+func (cc *chanClient) Edge(f *FuncCFG, b *cfg.Block, cond ast.Expr, value bool, st *FState) bool {
+	// the atom is exactly the flag load: the unset outcome establishes the fact
 	c := ast.Unparen(cond)
-	neg := false
-	if u, ok := c.(*ast.UnaryExpr); ok && u.Op == token.NOT {
-		neg = true
-		c = ast.Unparen(u.X)
-	}
 	if _, isCall := c.(*ast.CallExpr); !isCall {
-		return
+		return true
 	}
 	if !f.Mentions(c, nil)[cc.spec.FlagField] {
-		return
+		return true
 	}
-	flagSet := taken != neg
-	if !flagSet && st.Facts["W:"+cc.spec.LockPath] > 0 {
+	if !value && st.Facts["W:"+cc.spec.LockPath] > 0 {
 		st.Facts["flag-checked"] = 1
 	}
+	return true
 }
 
 func ruleChanTypestate(c *Ctx) {
